@@ -246,7 +246,7 @@ func flatten(t types.Type) []Leaf {
 // leaves returns the leaf terms of a value, in flatten order.
 func (v *Val) leaves() []*Term {
 	switch v.K {
-	case VInt, VBool, VStr, VTime, VMap, VCoins:
+	case VInt, VBool, VStr, VTime, VMap, VCoins, VArr:
 		return []*Term{v.T}
 	case VPtr:
 		if v.Ptr.Base != PObj || len(v.Ptr.Path) != 0 {
